@@ -35,7 +35,9 @@ impl Binders for PatId {
             | Pattern::Project(ProjectionPattern(_, pattern)) => pattern.binders(arena),
             | Pattern::Alias(Alias(pat)) | Pattern::Cons(pat) => pat
                 .iter()
-                .fold(im::HashMap::new(), |binders, item| binders.union(item.binders(arena))),
+                // components bind left to right: a later binder of the same name wins
+                // (`union` keeps the entries of its receiver)
+                .fold(im::HashMap::new(), |binders, item| item.binders(arena).union(binders)),
         }
     }
 }
